@@ -50,6 +50,7 @@ pub fn run(ctx: &mut Ctx) {
     ctx.floor("dtls.many.ok", 2_000);
     ctx.floor("dtls.many.err", 300);
     ctx.floor("alias.cases", 10_000);
+    ctx.floor("size-coincidences.exact", 30);
 
     let n = ctx.tier.pick(40000, 400000);
     ctx.family("tls", n, |ctx, case: &mut Case| {
@@ -135,6 +136,90 @@ pub fn run(ctx: &mut Ctx) {
         }
     });
 
+
+
+    // buffers whose absolute sizes coincide with powers of two: the bytes after the first record / after the
+    // first header / the whole buffer are exact multiples of 65536 (length arithmetic in narrower integer types)
+    ctx.sweep("size-coincidences", 48, |ctx, idx| {
+        let mut r = crate::rng::Rng::new(idx ^ 0x6553_6);
+        let k = 1 + (idx % 2) as usize; // multiples of 65536
+        let which = (idx / 2) % 3; // what is made to coincide
+        let dtls = idx >= 24;
+        let hdr_len = if dtls { 13 } else { 5 };
+        let mk = |r: &mut crate::rng::Rng, payload: &[u8], ct: u8| -> Vec<u8> {
+            if dtls {
+                refenc::dtls_record(&gen::dtls_hdr(r, ct), payload)
+            } else {
+                refenc::record(ct, 0x0303, payload)
+            }
+        };
+        // first record: a few alerts
+        let first = mk(&mut r, &[1, 0, 1, 0][..2 * (1 + (idx % 2) as usize)], 0x15);
+        let target_total = match which {
+            0 => first.len() + k * 65536,             // bytes after the first record
+            1 => hdr_len + k * 65536 + (first.len() - hdr_len), // same, expressed from the first header
+            _ => k * 65536,                           // whole buffer
+        };
+        let mut buf = first.clone();
+        // fill with valid alert / CCS records up to exactly the target
+        while buf.len() < target_total {
+            let left = target_total - buf.len();
+            let room = left - hdr_len.min(left);
+            if left <= hdr_len + 1 {
+                break;
+            }
+            let mut pl = room.min(16384);
+            if left - hdr_len - pl > 0 && left - hdr_len - pl <= hdr_len + 1 {
+                pl -= hdr_len + 2; // leave room for one more well-formed record
+            }
+            let ct = if pl % 2 == 0 { 0x15 } else { 0x14 };
+            let payload: Vec<u8> = if ct == 0x15 { std::iter::repeat([1u8, 0]).take(pl / 2).flatten().collect() } else { vec![1u8; pl] };
+            if payload.is_empty() {
+                break;
+            }
+            buf.extend(mk(&mut r, &payload, ct));
+        }
+        ctx.eval();
+        ctx.shape(&("size-coincidence", dtls, which, k, buf.len() == target_total));
+        if buf.len() == target_total {
+            ctx.count("size-coincidences.exact");
+        }
+        if !dtls {
+            let mut off = 0usize;
+            let mut n = 0usize;
+            while off < buf.len() {
+                match parse_tls_plaintext(&buf[off..]) {
+                    Ok((rem, _)) => {
+                        off = buf.len() - rem.len();
+                        n += 1;
+                    }
+                    Err(_) => break,
+                }
+            }
+            let many = tls_parser_many(&buf);
+            let good = matches!(&many, Ok((rem, v)) if v.len() == n && rem.len() == buf.len() - off);
+            if !good {
+                ctx.violation("c16:tls_parser_many:records-or-remainder-differ".into(), json!({"family": "size-coincidences", "buffer_len": buf.len(), "loop_records": n, "loop_consumed": off, "many": classify(&many).show(), "many_records": many.as_ref().ok().map(|x| x.1.len())}));
+            }
+        } else {
+            let mut off = 0usize;
+            let mut n = 0usize;
+            while off < buf.len() {
+                match parse_dtls_plaintext_record(&buf[off..]) {
+                    Ok((rem, _)) => {
+                        off = buf.len() - rem.len();
+                        n += 1;
+                    }
+                    Err(_) => break,
+                }
+            }
+            let many = parse_dtls_plaintext_records(&buf);
+            let good = matches!(&many, Ok((rem, v)) if v.len() == n && rem.len() == buf.len() - off);
+            if !good {
+                ctx.violation("c16:parse_dtls_plaintext_records:records-or-remainder-differ".into(), json!({"family": "size-coincidences", "buffer_len": buf.len(), "loop_records": n, "loop_consumed": off, "many": classify(&many).show()}));
+            }
+        }
+    });
 
     // the deprecated alias must equal parse_tls_plaintext on large inputs as well
     ctx.sweep("alias-large", 24, |ctx, idx| {
